@@ -576,6 +576,23 @@ def main(tier):
     for cl in sorted(mstats):
         print(f"C10 float measure {cl}: " + "; ".join(f"({a}) {s['accepted']} ok / {s['rejected']} rejected" for a, s in sorted(mstats[cl].items())))
 
+    # ---- Layer B: voigt_averages inside the library's workflow (spec/PyDRexFlow.tla): after any history of
+    # single / bulk updates (some refused part-way, leaving unequal snapshot counts), bad-argument calls and
+    # constructions, the average is accepted exactly when the machine says so, returns one symmetric finite
+    # 6x6 per stored snapshot and leaves every mineral untouched (judged by replay and by MineralTrace.tla).
+    from harness import layerb
+
+    flow_mc = run_tlc("PyDRexFlow", "PyDRexFlow", workers=8, timeout=900)
+    chk.add_tlc("PyDRexFlow", flow_mc, "workflow machine: UnequalNeverAveraged, AppendOnly, FailureAtomic over all reachable states")
+    nflow = 40 if quick else 1200
+    fbehs, fsim = layerb.generate_behaviours("PyDRexFlow", "PyDRexFlowSim", nflow, 12, SEED + 10)
+    chk.add_tlc("PyDRexFlow(simulate)", fsim, f"{nflow} random workflow behaviours")
+    fevents, fcomp = layerb.run_behaviours(chk, "C10", fbehs, fcheck=False)
+    nv = sum(1 for e in fevents if e["ev"] == "Voigt")
+    chk.cov["workflow_voigt_calls"] = dict(total=nv, rejected=sum(1 for e in fevents if e["ev"] == "Voigt" and e["exc"] != "None"))
+    if nv == 0:
+        raise MachineryError("no voigt_averages call in the simulated workflows")
+
     return chk.finish(
         rule="exact cases: every (assemblage, mineral-list order, phase fractions, tensor library, grain count, snapshot count, texture number, "
         "volume vector) of the grid enumerated by Voigt.tla plus the aligned-grain cases, distinct by content; rejection table: every shape "
